@@ -13,6 +13,14 @@ from sim.core import Check, Outcome, Violation, jhash, ddmin
 
 EXCLUDE_STANDALONE = ()
 
+# grammar libraries found through the import_paths option: the same main grammar text denotes another parser per library directory
+G_IMP = '%import tok (WORD, SEP, item)\n%import tok.pair\nstart: item (SEP item)* "." [pair]\n%ignore " "\n'
+LIBS = ['WORD: /[a-z]+/\nSEP: ","\nitem: WORD | "(" item ")"\npair: WORD "=" WORD\n',
+        'WORD: /[a-z0-9]+/\nSEP: ";"\nitem: WORD | "[" item "]"\npair: WORD ":" WORD\n',
+        'WORD.2: /[a-z]+/i\nSEP: "," | ";"\n?item: WORD | "(" item ")" -> par\n!pair: WORD "=" WORD\n',
+        'WORD: /[a-z]+/\nSEP: ","\nitem: WORD+ | "(" item ")"\n_eq: "="\npair: WORD _eq WORD\n']
+IMP_TEXTS = ['a, b.', '(a); b.', '[x9];q.', 'A,b. k=v', 'a b, c. x:y', '((a)),b . p = q', 'a,', '. a=b', 'a;b;c.', '(a.']
+
 
 def _cfgs():
     return [c for c in W.config_names(lalr=True)]
@@ -94,6 +102,20 @@ class C11(Check):
                 spec = persist.spec_of(cfg)
                 spec['probes'] = self._probes(rng, p, e, lambda st: W.gen_text(rng, cfg, p, st))
             cases.append(spec)
+        if rng.random() < 0.3:
+            # twins: one grammar text, two library directories (import_paths), one cache store whose file names lark derives from its key
+            lex = rng.choice(['contextual', 'basic'])
+            extra = rng.choice([{}, {'keep_all_tokens': True}, {'propagate_positions': True}, {'maybe_placeholders': False}])
+            for vi in rng.sample(range(len(LIBS)), 2):
+                opts = dict({'parser': 'lalr', 'lexer': lex, 'import_paths': ['@dir/lib%d' % vi]}, **extra)
+                lib = LIBS[vi]
+                p = Lark(G_IMP, **dict(opts, import_paths=[lambda base, name, lib=lib: ('<lib>/' + name, lib)]))
+                e = W.Entry('imp', G_IMP, opts, samples={'WORD': ['ab', 'x9', 'Q']}, texts=IMP_TEXTS)
+                sg = W.SentenceGen(p, e)
+                spec = {'name': 'imp%d' % vi, 'grammar': G_IMP, 'options': opts, 'user': {}, 'input_kind': 'str',
+                        'files': {'lib%d/tok.lark' % vi: lib}, 'cache_by_key': True}
+                spec['probes'] = self._probes(rng, p, e, lambda st: sg.text(rng, st))
+                cases.append(spec)
         hs = {k: rng.randrange(1, 1 << 31) for k in ('B', 'L1', 'L2', 'L3', 'D')}
         return {'cases': cases, 'hashseeds': hs, 'gens': rng.choice([1, 2, 2, 3]), 'standalone': rng.random() < 0.8,
                 'cli': rng.choice([False, False, 'plain', 'compress']), 'warm': rng.random() < 0.5, 'decoy': rng.random() < 0.5}
@@ -112,6 +134,9 @@ class C11(Check):
         cfgs, hs, gens = [c['name'] for c in plan['cases']], plan['hashseeds'], plan['gens']
         probes_of = {c['name']: c['probes'] for c in plan['cases']}
         base = {'kind': 'c11', 'dir': d, 'cases': plan['cases']}
+        for c_ in plan['cases']:
+            if c_.get('cache_by_key'):
+                out.count('case:import-twin(cache file named by key)')
 
         def run(name, steps):
             tr, err = nodes.run_node(dict(base, steps=steps), hs[name], cwd=d)
